@@ -15,7 +15,7 @@ from ..oracle import spectrum as O
 LEVEL = "fault_enumeration"
 NEEDS = ["harness", "cli", "shim"]
 RULE = ("files per format (vcf, vcf.gz, bgzf bcf, raw bcf; 0.4-3 KB; npy and text spectra): quick 1 / thorough 6 per shard-format; for EACH file the first "
-        "chunk length takes every value 1..len (exhaustive) x rest {all at once, random 1-64, 1 byte}; a read fault (kinds Other, BrokenPipe, "
+        "chunk length takes every value 1..len (exhaustive) x rest {all at once, random 1-64, 1 byte}, and each first-chunk length once more with the reader builder's options given explicitly (compression given + format detected / compression detected + format given / both given); a read fault (kinds Other, BrokenPipe, "
         "ConnectionReset; the reader then keeps failing / reports end of input / carries on) at every offset 0..len-1 (L) / a strided subset (S); writers accepting 1-7 bytes per call and failing at every offset. "
         "Baseline = the all-at-once result. A fault only obliges failure when the adapter recorded that it was DELIVERED. "
         "Non-trivial: any schedule with first chunk < len, any delivered fault; distinct = (file digest, schedule/fault).")
